@@ -61,6 +61,29 @@ class Normalise(ast.NodeTransformer):
                 node.body, node.orelse = node.orelse, node.body
         return node
 
+    @staticmethod
+    def negate(t):
+        flip = {ast.Eq: ast.NotEq, ast.NotEq: ast.Eq, ast.In: ast.NotIn, ast.NotIn: ast.In, ast.Is: ast.IsNot, ast.IsNot: ast.Is}
+        if isinstance(t, ast.Compare) and len(t.ops) == 1 and type(t.ops[0]) in flip:
+            return ast.copy_location(ast.Compare(left=t.left, ops=[flip[type(t.ops[0])]()], comparators=t.comparators), t)
+        if isinstance(t, ast.UnaryOp) and isinstance(t.op, ast.Not):
+            return t.operand
+        return ast.copy_location(ast.UnaryOp(op=ast.Not(), operand=t), t)
+
+    def unguard(self, stmts):
+        """a guard clause `if c: continue` in a loop body is the `if not c:` around the statements that follow it"""
+        for i, st in enumerate(stmts):
+            if isinstance(st, ast.If) and not st.orelse and len(st.body) == 1 and isinstance(st.body[0], ast.Continue) \
+                    and i + 1 < len(stmts):
+                rest = self.unguard(stmts[i + 1:])
+                return stmts[:i] + [ast.copy_location(ast.If(test=self.negate(st.test), body=rest, orelse=[]), st)]
+        return stmts
+
+    def visit_For(self, node):
+        self.generic_visit(node)
+        node.body = self.unguard(node.body)
+        return node
+
     def visit_Expr(self, node):
         self.generic_visit(node)
         v = node.value
